@@ -1,6 +1,6 @@
 """Lgtp2 (GTPv2-C header decoder sub-check: C19, C05, C01; C06/C07 n/a) configuration for ./check"""
 CONF = {
-    'interesting': ['truncated-prefix-of-valid', 'flags-every-value', 'ie-length-extreme', 'ie-header-cut', 'length-extreme', 'consistent-length-cut',
+    'interesting': ['truncated-prefix-of-valid', 'registered-decoder', 'seed', 'flags-every-value', 'ie-length-extreme', 'ie-header-cut', 'length-extreme', 'consistent-length-cut',
                     'information-elements', 'teid-present', 'piggyback-flag', 'bytes-beyond-message-length', 'residue-teid', 'residue-ies',
                     'residue-after-error-ies', 'error-after-fields-set', 'error-after-add', 'residue-after-error', 'decode-error', 'large', 'malformed'],
     'rule': 'GTPv2-C messages built field by field: every first octet (version, P, T, priority bits) with one IE; 0..5 IEs of 0,1,4,8,9,40 content octets; '
